@@ -8,6 +8,15 @@ PY = '/venv/bin/python'
 
 # id -> (engine, category, technique, text, note, design_ref)
 CHECKS = {
+    'C14': ('E-enum', 'exploration',
+            'complete enumeration of the closed (version value x route x method) table and of feature probes x versions on the real service',
+            'Closed space enumerated completely: 51 version values (none, 1.0-1.39, latest, out-of-range, malformed, '
+            'other-service) x every declared route template + an unknown one x 7 methods, each with a request valid for '
+            'that version, judged against a hand-written introduced-at table and the api-ref normal response codes; plus '
+            '152 versioned-feature probes (at least one per microversion 1.1-1.39) with presence predicates evaluated at '
+            'all 42 accepted version values; every accepted-version response is checked for openstack-api-version and Vary.',
+            'oracle tables transcribed by hand from rest_api_version_history.rst and api-ref; one populated state (three in thorough); single admin+service caller',
+            'DESIGN.md 5.C14'),
     'C01': ('E-seq', 'model_checking',
             'explicit-state BFS over request histories of the real service, depth-bounded',
             'All histories up to depth 4 (quick) / 5 (thorough) from three start states (no inventory, '
